@@ -84,6 +84,15 @@ func TestC16(t *testing.T) {
 	}
 	gen := func(t *rapid.T) c16Case {
 		a := genAdmission(t, "a")
+		if rapid.IntRange(0, 7).Draw(t, "regbad") == 0 {
+			// a registration number with a character outside X.680 PrintableString: cannot be encoded, must be refused
+			// (only this check draws such numbers; the shared generator stays inside what gopki accepts)
+			ci := rapid.IntRange(0, len(a.Contents)-1).Draw(t, "regbad-adm")
+			if n := len(a.Contents[ci].Infos); n > 0 {
+				pi := &a.Contents[ci].Infos[rapid.IntRange(0, n-1).Draw(t, "regbad-info")]
+				pi.RegNum += rapid.SampledFrom([]string{"*", "@", "_", "&", "é", "#", "\""}).Draw(t, "regbadch")
+			}
+		}
 		if rapid.IntRange(0, 9).Draw(t, "long") == 0 {
 			// long names: lengths >= 128 inside the explicit tags
 			long := strings.Repeat("n", rapid.IntRange(120, 300).Draw(t, "longlen"))
